@@ -22,6 +22,9 @@ pub use ctl::main as ctl_main;
 pub use daemon::main as daemon_main;
 pub use metrics::exporter::main as metrics_exporter_main;
 
+#[cfg(pendulum_project_ntpd_rs_verif)]
+pub use daemon::verif;
+
 #[cfg(test)]
 mod test {
     use std::sync::atomic::{AtomicU16, Ordering};
